@@ -50,7 +50,7 @@ theorem percentOf_numText (n : NumLit) (h : n.WF) (hp : n.PctOK) :
     unfold NumLit.fdigits
     cases hf : n.fp with
     | none => intro d hd; cases hd
-    | some f => rw [hf] at hfp; exact hfp.2
+    | some f => rw [hf] at hfp; exact hfp
   have hall : AllDigits (n.ip ++ n.fdigits) := by
     intro d hd
     rcases List.mem_append.mp hd with hd | hd
